@@ -298,6 +298,14 @@ let run_scenario (sc : scn) (ops : string list list) : unit =
       | [ "dg"; i; b ] -> ignore (exec d w (SOp (OSetGroupDisable (nat_of_int (ios i), b = "1"))))
       | [ "p"; slot; hx ] -> ignore (exec d w (SPoke (nat_of_int (ios slot), bytes_of_hex hx)))
       | [ "N" ] -> ignore (exec d w SReinit)
+      | [ "sc"; hx ] ->
+        (match search_command_by_name d (bytes_of_hex hx) with
+         | Some i -> pr "= sc %d\n" (int_of_nat i) | None -> pr "= sc -1\n")
+      | [ "sv"; ci; hx ] ->
+        (match List.nth_opt (List.concat d.d_groups @ d.d_extra) (ios ci) with
+         | Some c -> (match search_variable_by_name c (bytes_of_hex hx) with
+                      | Some i -> pr "= sv %d\n" (int_of_nat i) | None -> pr "= sv -1\n")
+         | None -> pr "= sv -2\n")
       | [ "B" ] -> pr "B %s %s\n" (hex_of_bytes (st !w).cbuf) (hex_of_bytes (st !w).ubuf)
       | _ -> failwith ("bad op: " ^ String.concat " " toks))
     ops;
